@@ -618,6 +618,7 @@ func c18Extension(r *eng.Run) {
 func c18ReaderNext(r *eng.Run) {
 	r.SetEntry("Reader.consecutive")
 	cfg := ReadCfg{App: AppReader, CheckUTF8: r.T.Bool(sim.LCfg), OnInter: r.T.Int(sim.LCfg, 4), OnCont: r.T.Bool(sim.LCfg), ProbeIdle: true}
+	cfg.ContErr = cfg.OnCont && r.T.Chance(sim.LCfg, 1, 3)
 	if r.T.Bool(sim.LSide) {
 		cfg.Side = ref.Client
 	}
